@@ -74,6 +74,8 @@ struct SmFailed {
     void toXml(QXmlStreamWriter *w) const;
 
     std::optional<QXmppStanza::Error::Condition> error;
+    // number of stanzas the server handled on the session that could not be resumed (XEP-0198, 5.)
+    std::optional<quint32> h;
 };
 
 struct SmAck {
@@ -108,6 +110,7 @@ public:
     void enableStreamManagement(bool resetSequenceNumber);
     void setAcknowledgedSequenceNumber(unsigned int sequenceNumber);
     void resumeStreamManagement(unsigned int acknowledgedSequenceNumber);
+    void setHandledByFailedSession(unsigned int sequenceNumber);
 
     QXmppTask<QXmpp::SendResult> send(QXmppPacket &&);
     bool sendPacketCompat(QXmppPacket &&);
@@ -127,6 +130,8 @@ private:
     QMap<unsigned int, QXmppPacket> m_unacknowledgedStanzas;
     unsigned int m_lastOutgoingSequenceNumber = 0;
     unsigned int m_lastIncomingSequenceNumber = 0;
+    // handled count reported by <failed h=''/>: those stanzas must not be sent again on the next session
+    std::optional<unsigned int> m_handledByFailedSession;
 };
 
 }  // namespace QXmpp::Private
